@@ -186,29 +186,31 @@ Dec(s, p, cf) == IF ListFormat(cf) = "bare" THEN DecBare(s, p, cf) ELSE DecCoded
 
 (*--------------------------------------------------------------------------*)
 (* DebugAddr::get_address(address_size, base, index); A = [sec, base].      *)
-(* index * address_size is an unchecked u64 multiplication in the code    *)
-(* (panics with overflow checks, wraps without): the model reports the      *)
-(* distinguished error "MulOverflow" for such inputs, see notes/C08.md.     *)
+(* index * address_size is a checked u64 multiplication (UnsupportedOffset  *)
+(* when it leaves u64).                                                     *)
 U64Mul(x, n) == IF SmallNat(x) /\ ToNat(x) < 16777216 THEN [ovf |-> FALSE, v |-> N8(ToNat(x) * n)]
                 ELSE LET w == MulWide(x, N8(n)) IN
                      [ovf |-> ~IsZero(SubSeq(w, 9, 16)), v |-> Trunc(w, 8)]
-(* skip(base) then skip(index * scale); yields the position or an error *)
-SkipBaseIndex(sec, base, idx, scale) ==
+(* skip(base) then skip(index * scale); yields the position or an error;    *)
+(* ovfErr names what the code does when the product leaves u64              *)
+SkipBaseIndex(sec, base, idx, scale, ovfErr) ==
     IF ~(SmallNat(base) /\ ToNat(base) <= Len(sec)) THEN REof ELSE
     LET m == U64Mul(idx, scale) IN
-    IF m.ovf THEN RErr("MulOverflow") ELSE
+    IF m.ovf THEN RErr(ovfErr) ELSE
     IF ~(SmallNat(m.v) /\ ToNat(m.v) <= Len(sec) - ToNat(base)) THEN REof
     ELSE ROk(Z8, ToNat(base) + ToNat(m.v) + 1)
 GetAddress(A, cf, idx) ==
-    LET q == SkipBaseIndex(A.sec, A.base, idx, cf.asz) IN
+    LET q == SkipBaseIndex(A.sec, A.base, idx, cf.asz, "UnsupportedOffset") IN
     IF ~q.ok THEN q ELSE RdAddr(A.sec, q.p, cf.asz, cf.le)
 
 (* RangeLists::get_offset / LocationLists::get_offset on the v5 section:    *)
-(* base + the index-th format-sized word after base.  base.0 + x is an    *)
-(* unchecked usize addition ("AddOverflow").                                *)
+(* base + the index-th format-sized word after base.  index * word_size    *)
+(* and base.0 + x are unchecked in the code (panic with overflow checks,    *)
+(* wrap without): the model reports the distinguished errors "MulOverflow"  *)
+(* / "AddOverflow" for such inputs, see notes/C08.md.                       *)
 GetOffset(sec, cf, base, idx) ==
     LET ws == IF cf.fmt = 64 THEN 8 ELSE 4
-        q  == SkipBaseIndex(sec, base, idx, ws) IN
+        q  == SkipBaseIndex(sec, base, idx, ws, "MulOverflow") IN
     IF ~q.ok THEN q ELSE
     LET x == RdFixed(sec, q.p, ws, cf.le) IN
     IF ~x.ok THEN x
@@ -481,8 +483,8 @@ RangesAt(off, cf, F, u) == ResRun(RngSection(cf, F), off, u.low_pc, RngCf(cf), A
 LocationsAt(off, cf, F, u) == ResRun(LocSection(cf, F), off, u.low_pc, LocCf(cf), AddrTab(F, u))
 
 (* Dwarf::die_ranges as coded: attributes in order; DW_AT_ranges wins as    *)
-(* soon as it is met; a constant high_pc is an offset from low_pc           *)
-(* (begin + size is an unchecked u64 addition: "AddOverflow").            *)
+(* soon as it is met; a constant high_pc is an offset from low_pc, added   *)
+(* with address-size wrap-around (wrapping_add_sized).                     *)
 (* state: [lo, hi, size] each [some, v]                                      *)
 NoneV == [some |-> FALSE, v |-> Z8]
 SomeV(v) == [some |-> TRUE, v |-> v]
@@ -492,8 +494,7 @@ DieRangesFrom(attrs, i, acc, cf, F, u) ==
     IF i > Len(attrs) THEN
         IF ~acc.lo.some THEN [t |-> "single", some |-> FALSE]
         ELSE IF acc.size.some THEN
-             (IF AddOverflows(acc.lo.v, acc.size.v) THEN DRErr("AddOverflow")
-              ELSE [t |-> "single", some |-> TRUE, begin |-> acc.lo.v, end |-> Add(acc.lo.v, acc.size.v)])
+             [t |-> "single", some |-> TRUE, begin |-> acc.lo.v, end |-> WrapAdd(acc.lo.v, acc.size.v, cf.asz)]
         ELSE IF acc.hi.some THEN [t |-> "single", some |-> TRUE, begin |-> acc.lo.v, end |-> acc.hi.v]
         ELSE [t |-> "single", some |-> FALSE]
     ELSE
